@@ -46,20 +46,43 @@ ShownLines(s, en) ==
 VisibleEnd(ls, E) ==
   LET le == LineEndOf(ls) IN
   IF le >= E THEN E ELSE IF le > ls /\ text[le] = CR THEN le - 1 ELSE le
-RenderLine(ls, s, en, S, E, last) ==
+\* pfx: what replaces the first columns of the indentation ("..." when the next span of the same
+\* error is not on the next line, else nothing); msg: the message after the last underline
+RenderLine(ls, s, en, S, E, last, pfx, msg) ==
   LET us == IF ls = S THEN s ELSE ls              \* where the underline starts on this line
       ve == VisibleEnd(ls, E)
       ue == Min({en, Max({us, ve})})              \* ... and where it ends (never before it starts)
       ds == Digits(Line(ls))
   IN ds \o BAR \o Decode(ls, ve) \o <<LF>>
-     \o Rep(32, Width(ls, us) + Len(ds) + 2) \o Rep(94, Max({1, Width(us, ue)}))
-     \o (IF last THEN MSG ELSE <<LF>>)
-RECURSIVE RenderFrom(_, _, _, _, _)
-RenderFrom(lss, s, en, S, E) ==
+     \o pfx \o Rep(32, Width(ls, us) + Len(ds) + 2 - Len(pfx)) \o Rep(94, Max({1, Width(us, ue)}))
+     \o (IF last THEN <<32>> \o msg ELSE <<LF>>)
+RECURSIVE RenderFrom(_, _, _, _, _, _, _)
+RenderFrom(lss, s, en, S, E, pfx, msg) ==
   IF lss = <<>> THEN <<>>
-  ELSE RenderLine(Head(lss), s, en, S, E, Len(lss) = 1) \o RenderFrom(Tail(lss), s, en, S, E)
-Render(s, en) ==
-  LET S == LineStartOf(s)  E == LineEndOf(en) IN RenderFrom(SetToSortSeq(ShownLines(s, en), <), s, en, S, E)
+  ELSE RenderLine(Head(lss), s, en, S, E, Len(lss) = 1, pfx, msg) \o RenderFrom(Tail(lss), s, en, S, E, pfx, msg)
+RenderP(s, en, pfx, msg) ==
+  LET S == LineStartOf(s)  E == LineEndOf(en) IN RenderFrom(SetToSortSeq(ShownLines(s, en), <), s, en, S, E, pfx, msg)
+Render(s, en) == RenderP(s, en, <<>>, <<77>>)
+
+\* An error or warning with several spans (format_spanned): the first span carries the message,
+\* every further one "<n>th occurrence" (duplication errors; other kinds have one span); a span is
+\* prefixed with dots when the next one is more than a line further down.
+Ordinal(v) ==
+  LET suf == IF (v % 100) \in 11 .. 13 THEN <<116, 104>>
+             ELSE CASE v % 10 = 1 -> <<115, 116>> [] v % 10 = 2 -> <<110, 100>> [] v % 10 = 3 -> <<114, 100>> [] OTHER -> <<116, 104>>
+  IN Digits(v) \o suf
+OCCURRENCE == <<32, 111, 99, 99, 117, 114, 114, 101, 110, 99, 101>>        \* " occurrence"
+RECURSIVE RenderSpannedFrom(_, _, _)
+RenderSpannedFrom(spans, i, msg) ==
+  IF i > Len(spans) THEN <<>>
+  ELSE LET sp == spans[i]
+           ln == Line(sp[1])
+           nx == IF i < Len(spans) THEN Line(spans[i + 1][1]) ELSE ln
+           pfx == IF nx > ln + 1 THEN <<46, 46, 46>> ELSE <<>>
+       IN (IF i = 1 THEN RenderP(sp[1], sp[2], pfx, msg)
+           ELSE <<LF>> \o RenderP(sp[1], sp[2], pfx, Ordinal(i) \o OCCURRENCE))
+          \o RenderSpannedFrom(spans, i + 1, msg)
+RenderSpanned(spans, msg) == RenderSpannedFrom(spans, 1, msg)
 
 \* ---------------------------------------------------------------------------------------------
 \* ALGORITHM, as coded.  `fixed' says which of the two repairs of the "fix:" commit are in:
